@@ -67,7 +67,9 @@ def cases(tier):
                                     "paths": paths, "bound": bound if procs > 1 else min(bound, 1)})
     for engine in ("standard", "mlmc-fixed", "mlmc-adaptive"):
         for mode in ("fixed", "jumptimes"):
-            out.append({"sub": "repeat", "engine": engine, "mode": mode, "seed": 7, "paths": 5})
+            # every sampling method draws its states from its own source (the table method reads `random`, not numpy)
+            for method in ("INVERSION", "TABLE", "ALIAS") if (thorough or engine != "mlmc-adaptive") else ("INVERSION",):
+                out.append({"sub": "repeat", "engine": engine, "mode": mode, "seed": 7, "paths": 5, "method": method})
     for procs, paths in ((2, 4), (2, 8), (3, 9), (2, 17)):
         out.append({"sub": "conformance", "procs": procs, "paths": paths, "engine": "standard"})
     out.append({"sub": "conformance", "procs": 2, "paths": 8, "engine": "mlmc-fixed"})
@@ -103,14 +105,14 @@ def build_and_price(case):
         from rpylib.montecarlo.standard.engine import Engine
         from rpylib.process.markovchain.markovchain import MarkovChainProcess
 
-        proc = MarkovChainProcess(model=model, method=SamplingMethod.INVERSION, grid=grid)
+        proc = MarkovChainProcess(model=model, method=SamplingMethod[case.get("method", "INVERSION")], grid=grid)
         conf = ConfigurationStandard(mc_paths=case["paths"], seed=case["seed"], nb_of_processes=case.get("procs", 1))
         eng = Engine(configuration=conf, process=proc)
         return eng.price(product), eng
     from rpylib.montecarlo.multilevel.engine import Engine
     from rpylib.process.coupling.couplingmarkovchain import CouplingMarkovChain
 
-    cp = CouplingMarkovChain(model=model, method=SamplingMethod.INVERSION, grid=grid)
+    cp = CouplingMarkovChain(model=model, method=SamplingMethod[case.get("method", "INVERSION")], grid=grid)
     if case["engine"] == "mlmc-fixed":
         conf = ConfigurationMultiLevel(initial_level=1, maximum_level=2, initial_mc_paths=case["paths"], seed=case["seed"],
                                        nb_of_processes=case.get("procs", 1))
@@ -213,7 +215,7 @@ def _run(sh, case):
 
 def _repeat(sh, case):
     """(a): a seeded single-process run repeated from two different pre-existing generator states."""
-    tag = f"{case['engine']}:{case['mode']}"
+    tag = f"{case['engine']}:{case['mode']}:{case.get('method', 'INVERSION').lower()}"
     rows = []
     for boot in ("A", "B"):
         ch = core.Chooser([])
